@@ -14,7 +14,7 @@ RULE = ('events = %d documents (register assignments, \\setlength, classes artic
         'display math / lists / verbatim left open at end of input, \\openout, \\newif, \\appendix, index, babel, redefinitions, '
         'a plain witness); every document also contains an observer block (register tests, math, nested lists, a table, a '
         'section). States = leaked interpreter-wide state (snapshot diff). BFS: all histories of length <= 2 exhaustively, then '
-        'from every distinct leaked state to depth k; each history runs in a freshly forked process. Oracles: snapshot after a '
+        'from every distinct leaked state to depth k (thorough: additionally every ordered triple of documents); each history runs in a freshly forked process. Oracles: snapshot after a '
         'document = pristine snapshot; tree (and rendered files for a subset) of the last document = the same document alone; '
         'a difference is attributed to an open finding only if every leaked attribute is named by one and the difference '
         'disappears when the snapshot is restored before the last document. Non-trivial: history length >= 2.')
@@ -340,6 +340,31 @@ def expand_chunk(hists):
 MENU_ORDER = list(MENU)
 
 
+def run_block_triples(block):
+    """thorough: every ordered triple A1;A2;B with the given A1;A2 (no merging by leaked state: the differential oracle sees
+    state the snapshot does not cover)"""
+    a1, a2 = block
+    rep = core.Report()
+    for name in MENU_ORDER:
+        h = (a1, a2, name)
+        v, fids, info, leak_key = judge(h, False)
+        rep.traces += 1
+        if v == 'skip':
+            rep.count('skipped_incomplete_history')
+            continue
+        rep.case(key=h, nontrivial=True, outcome=(name, leak_key, v))
+        rep.count('all_triples')
+        case = {'hist': list(h), 'render_last': False}
+        if v == 'error':
+            rep.error('history %s: %s' % (h, info))
+        elif v == 'violation':
+            rep.violation(case, 'same result as the last document alone; pristine interpreter state', info, MENU[name][:300])
+        elif v == 'known':
+            for f in fids:
+                rep.known_finding(f, case, repr(info)[:300])
+    return rep.close_block()
+
+
 def replay(case):
     v, fids, info, leak_key = judge(tuple(case['hist']), case.get('render_last', False))
     if v in ('ok', 'skip'):
@@ -363,6 +388,9 @@ def run(tier, seed, rep):
     MENU_ORDER = core.rotate(list(MENU), seed)
     # level 1 and 2 exhaustively (all ordered pairs incl. B;B); deeper levels only from distinct leaked states
     info = core.bfs(expand_chunk, 3 if quick else 4, rep, chunk=1, state_cap=None)
+    if not quick:
+        core.merge_all(run_block_triples, [(a, b) for a in MENU_ORDER for b in MENU_ORDER], rep)
     return {'exhaustive': True, 'bounds': {'menu': len(MENU), 'depth': info['depth_completed'], 'levels': info['levels'],
+                                           'all_ordered_triples': not quick,
                                            'rendered_last_documents': list(RENDER)},
             'floors': {'evaluations': 300}}
